@@ -7,6 +7,7 @@ import (
 	"github.com/sarchlab/akita/v5/mem/cache"
 	"github.com/sarchlab/akita/v5/mem/memcontrolprotocol"
 
+	"verif/props/tracelog"
 	"verif/sim/kit"
 )
 
@@ -45,7 +46,8 @@ func cacheNames(c *Config) []string {
 	return n
 }
 
-func genC17(r *kit.Rand, tier kit.Tier) C17Case {
+// GenC17 draws a drain/flush case (also used by the determinism check).
+func GenC17(r *kit.Rand, tier kit.Tier) C17Case {
 	var c C17Case
 
 	c.Filtered = r.Chance(1, 3)
@@ -295,7 +297,7 @@ func init() {
 		FaultKinds:  []string{"control-verb(drain|flush|enable)", "flush-mid-traffic", "requester-stall-window", "back-pressure(requester-send-blocked)", "lower-response-delayed", "lower-response-reordered"},
 		Quick:       kit.Budget{Runs: 12000, WallS: 100},
 		Thorough:    kit.Budget{Runs: 600000, WallS: 1500, CaseS: 300},
-		Gen:         genC17, Exec: execC17,
+		Gen:         GenC17, Exec: execC17,
 		Shrink: func(c C17Case) []C17Case {
 			var out []C17Case
 			for _, q := range ShrinkConfig(c.Cfg) {
@@ -320,4 +322,32 @@ func init() {
 			return out
 		},
 	})
+}
+
+// TraceRun executes a configuration (with an optional control script) with a
+// trace log attached to the engine and to every port, and returns the log
+// followed by the requesters' response records (C03, C33).
+func TraceRun(cfg *Config, steps []CtrlStep, attach func(a *Asm)) (*tracelog.Log, *World, *Asm) {
+	w := NewWorld()
+	w.NoDataCheck = true
+	l := &tracelog.Log{}
+	w.OnBuilt = func(a *Asm) {
+		if len(steps) > 0 {
+			w.Ctrl = NewCtrlDriver(a, w, steps)
+		}
+
+		l.Attach(a.Eng, a.Ports)
+
+		if attach != nil {
+			attach(a)
+		}
+	}
+
+	a := Run(cfg, w)
+
+	for _, r := range w.Resp {
+		l.Lines = append(l.Lines, fmt.Sprintf("R %d %d %d %v %x", r.Req, r.Ord, r.Time, r.Write, r.Data))
+	}
+
+	return l, w, a
 }
